@@ -408,3 +408,20 @@ Print Assumptions bibtex_name_roundtrip_general_partial.
 Example ex_expressibleG : expressibleG braced_name /\
   format_name braced_name = s2l "de {\'e}a {\""O}zt{\""u}rk {Barnes and Noble, Inc.}, Jr., A. {B C}".
 Proof. split; [exact braced_name_ok|vm_compute; reflexivity]. Qed.
+
+(* ---- ... and the no-first-name form ("von Last") with general tokens: [expressible0G] = [expressible0] with [gtok]
+   tokens.  Together with bibtex_name_roundtrip_general_partial: every person that has a BibTeX spelling without a
+   trailing comma, except those with a lineage part and no first name (no such spelling), round-trips through
+   _format_name / Person(string) whenever its tokens are gtok and the von / non-von pattern is the stated one. *)
+Theorem bibtex_name_roundtrip_nofirst_general_partial : forall p, expressible0G p -> person_of_string (format_name p) = Ok (p, false).
+Proof. exact bibtex_name_roundtrip0G_pf. Qed.
+Print Assumptions bibtex_name_roundtrip_nofirst_general_partial.
+
+Example ex_expressible0G : expressible0G (mkPerson [] [] [] [s2l "{Barnes and Noble, Inc.}"] []) /\
+  person_of_string (s2l "{Barnes and Noble, Inc.}") = Ok (mkPerson [] [] [] [s2l "{Barnes and Noble, Inc.}"] [], false).
+Proof.
+  split; [|vm_compute; reflexivity]. unfold expressible0G. cbn [p_first p_middle p_lineage p_prelast p_last].
+  repeat split; try constructor; try constructor; try (apply gtokb_ok; vm_compute; reflexivity).
+  - reflexivity.
+  - eexists; eexists; split; [reflexivity|vm_compute; reflexivity].
+Qed.
